@@ -98,9 +98,9 @@ Qed.
 
 Lemma normalise_erase l : normalise (map erase l) = map erase (normalise l).
 Proof.
-  unfold normalise. cbv zeta.
-  change (mkn [] [] 0 false (NONE, NONE) None) with (erase_st (mkn [] [] 0 false (NONE, NONE) None)) at 1 2 3 4 5.
-  rewrite !fold_nstep_erase. set (s := fold_left nstep l _).
+  pose proof (fold_nstep_erase l (mkn [] [] 0 false (NONE, NONE) None)) as F.
+  change (erase_st (mkn [] [] 0 false (NONE, NONE) None)) with (mkn [] [] 0 false (NONE, NONE) None) in F.
+  unfold normalise. cbv zeta. rewrite F. set (s := fold_left nstep l _).
   change (n_open (erase_st s)) with (n_open s). change (n_wait (erase_st s)) with (n_wait s).
   change (n_waitf (erase_st s)) with (n_waitf s). change (n_out (erase_st s)) with (map erase (n_out s)).
   rewrite first_chan_erase, <- cleanup_erase. f_equal.
@@ -140,4 +140,171 @@ Proof.
   destruct (is_on _) eqn:On in *; cbn.
   - reflexivity.
   - repeat match goal with Hh : false || _ = true |- _ => cbn [orb] in Hh; apply Z.eqb_eq in Hh end. now subst.
+Qed.
+
+(* ---------------------------------------------------------------- duration of the merged relative view *)
+Lemma sumZ_app l1 l2 : sumZ (l1 ++ l2) = sumZ l1 + sumZ l2.
+Proof. induction l1 as [|x l1 IH]; cbn [app sumZ]; lia. Qed.
+Lemma dur_rel_app l1 l2 : dur_rel (l1 ++ l2) = dur_rel l1 + dur_rel l2.
+Proof. unfold dur_rel. now rewrite filter_app, map_app, sumZ_app. Qed.
+Lemma dur_rel_single m : dur_rel [m] = if is_wait m then m_time m else 0.
+Proof. unfold dur_rel. cbn [filter]. destruct (is_wait m); cbn; lia. Qed.
+
+Definition maxt (l : list msg) (c : Z) : Z := fold_left (fun c m => Z.max c (m_time m)) l c.
+
+Lemma maxt_cons m l c : maxt (m :: l) c = maxt l (Z.max c (m_time m)).
+Proof. reflexivity. Qed.
+
+Lemma dur_to_rel_aux l : forall cur f, dur_rel (to_rel_aux l cur f) = maxt l cur - cur.
+Proof.
+  induction l as [|m l IH]; intros cur f; [cbn; lia|].
+  cbn [to_rel_aux]. cbv zeta. rewrite !dur_rel_app, IH. rewrite maxt_cons.
+  assert (E0 : dur_rel (if mtype_eqb (m_type m) INTERNAL then [] else [strip_time m]) = 0).
+  { destruct (mtype_eqb (m_type m) INTERNAL); [reflexivity|]. rewrite dur_rel_single. now destruct (is_wait _). }
+  rewrite E0.
+  destruct (cur <? m_time m) eqn:E; [apply Z.ltb_lt in E|apply Z.ltb_ge in E].
+  - rewrite dur_rel_single. cbn. rewrite Z.max_r by lia. lia.
+  - rewrite Z.max_l by lia. cbn. lia.
+Qed.
+
+Lemma maxt_spec l : forall c T,
+  (forall x, In x l -> m_time x <= T) -> c <= T -> (c = T \/ exists x, In x l /\ m_time x = T) -> maxt l c = T.
+Proof.
+  induction l as [|m l IH]; intros c T B C H.
+  - cbn. destruct H as [H|(x & [] & _)]. exact H.
+  - rewrite maxt_cons.
+    assert (Bm : m_time m <= T) by (apply B; now left).
+    apply IH; [intros x Hx; apply B; now right|lia|].
+    destruct H as [H|(x & [<-|Hx] & Ex)]; [left; lia|left; lia|right; eauto].
+Qed.
+
+(* waits of a list are all non-negative *)
+Definition waits_nonneg (l : list msg) : bool := forallb (fun m => negb (is_wait m) || (0 <=? m_time m)) l.
+
+Lemma to_rel_aux_waits l : forall cur f, waits_nonneg (to_rel_aux l cur f) = true.
+Proof.
+  unfold waits_nonneg. induction l as [|m l IH]; intros cur f; [reflexivity|].
+  cbn [to_rel_aux]. cbv zeta. rewrite !forallb_app, IH, andb_true_r. apply andb_true_intro. split.
+  - destruct (cur <? m_time m) eqn:E; [|reflexivity]. apply Z.ltb_lt in E. cbn [forallb]. rewrite andb_true_r.
+    apply orb_true_iff. right. apply Z.leb_le. cbn. lia.
+  - destruct (mtype_eqb (m_type m) INTERNAL); [reflexivity|]. cbn [forallb]. rewrite andb_true_r.
+    apply orb_true_iff. right. reflexivity.
+Qed.
+
+Definition dstate (s : nstate) : Z := dur_rel (n_out s) + n_wait s.
+
+Lemma flush_dstate s c m : is_wait m = false -> 0 <= n_wait s ->
+  dstate (flush s c m) = dstate s /\ 0 <= n_wait (flush s c m).
+Proof.
+  intros W N. unfold dstate, flush. cbn [n_out n_wait].
+  destruct (0 <? n_wait s) eqn:E; [apply Z.ltb_lt in E|apply Z.ltb_ge in E].
+  - rewrite !dur_rel_app, !dur_rel_single, W. cbn. lia.
+  - rewrite !dur_rel_app, !dur_rel_single, W. lia.
+Qed.
+
+Lemma nstep_dstate s m : (is_wait m = true -> 0 <= m_time m) -> 0 <= n_wait s ->
+  dstate (nstep s m) = dstate s + (if is_wait m then m_time m else 0) /\ 0 <= n_wait (nstep s m).
+Proof.
+  intros Wm N. unfold nstep, is_wait in *.
+  destruct (m_type m) eqn:T; cbn [mtype_eqb mtype_rank Z.eqb Pos.eqb] in *;
+    try (rewrite Z.add_0_r; apply flush_dstate; [unfold is_wait; now rewrite T|exact N]).
+  - destruct (okey_eqb (m_key m) (n_key s)); [split; [lia|exact N]|].
+    rewrite Z.add_0_r.
+    apply (flush_dstate (mkn (n_open s) (n_out s) (n_wait s) (n_waitf s) (n_ts s) (m_key m)));
+      [unfold is_wait; now rewrite T|exact N].
+  - destruct ((m_num m =? fst (n_ts s)) && (m_den m =? snd (n_ts s))); [split; [lia|exact N]|].
+    rewrite Z.add_0_r.
+    apply (flush_dstate (mkn (n_open s) (n_out s) (n_wait s) (n_waitf s) (m_num m, m_den m) (n_key s)));
+      [unfold is_wait; now rewrite T|exact N].
+  - destruct (depth (m_chan m, m_note m) (n_open s)) as [|d]; [split; [lia|exact N]|].
+    destruct d; [|split; [unfold dstate; cbn [n_out n_wait]; lia|exact N]].
+    rewrite Z.add_0_r.
+    apply (flush_dstate (mkn (dset k2_eqb (m_chan m, m_note m) 0%nat (n_open s)) (n_out s) (n_wait s) (n_waitf s) (n_ts s) (n_key s)));
+      [unfold is_wait; now rewrite T|exact N].
+  - destruct (depth (m_chan m, m_note m) (n_open s)) as [|d]; [|split; [unfold dstate; cbn [n_out n_wait]; lia|exact N]].
+    rewrite Z.add_0_r.
+    apply (flush_dstate (mkn (dset k2_eqb (m_chan m, m_note m) 1%nat (n_open s)) (n_out s) (n_wait s) (n_waitf s) (n_ts s) (n_key s)));
+      [unfold is_wait; now rewrite T|exact N].
+  - specialize (Wm eq_refl). unfold dstate. cbn [n_out n_wait]. lia.
+Qed.
+
+Lemma fold_nstep_dstate l : forall s, waits_nonneg l = true -> 0 <= n_wait s ->
+  dstate (fold_left nstep l s) = dstate s + dur_rel l /\ 0 <= n_wait (fold_left nstep l s).
+Proof.
+  induction l as [|m l IH]; intros s W N.
+  - cbn [fold_left]. unfold dur_rel. cbn. split; [lia|exact N].
+  - unfold waits_nonneg in W. cbn [forallb] in W. apply andb_prop in W as [W1 W2].
+    assert (Wm : is_wait m = true -> 0 <= m_time m).
+    { intros E. rewrite E in W1. cbn in W1. now apply Z.leb_le. }
+    destruct (nstep_dstate s m Wm N) as [D1 N1]. cbn [fold_left].
+    destruct (IH (nstep s m) W2 N1) as [D2 N2]. split; [|exact N2].
+    rewrite D2, D1. change (m :: l) with ([m] ++ l). rewrite dur_rel_app, dur_rel_single. lia.
+Qed.
+
+Lemma remove_last_on_waits k l : filter is_wait (fst (remove_last_on k l)) = filter is_wait l.
+Proof.
+  induction l as [|m l IH]; [reflexivity|]. cbn [remove_last_on].
+  destruct (remove_last_on k l) as [r found]. cbn [fst] in *. destruct found.
+  - cbn [fst filter]. now rewrite IH.
+  - destruct (is_on m && k2_eqb k (m_chan m, m_note m)) eqn:E.
+    + cbn [fst filter]. apply andb_prop in E as [E _].
+      assert (W : is_wait m = false) by (unfold is_on, is_wait in *; destruct (m_type m); cbn in *; congruence).
+      now rewrite W.
+    + cbn [fst filter]. now rewrite IH.
+Qed.
+
+Lemma cleanup_dur o : forall out, dur_rel (cleanup o out) = dur_rel out.
+Proof.
+  unfold cleanup. induction o as [|[k d] o IH]; intros out; [reflexivity|].
+  cbn [fold_left fst snd]. destruct d; [apply IH|]. rewrite IH. unfold dur_rel. now rewrite remove_last_on_waits.
+Qed.
+
+Lemma normalise_dur l : waits_nonneg l = true -> dur_rel (normalise l) = dur_rel l.
+Proof.
+  intros W. unfold normalise. cbv zeta. rewrite cleanup_dur.
+  destruct (fold_nstep_dstate l (mkn [] [] 0 false (NONE, NONE) None) W) as [D N]; [cbn; lia|].
+  set (s := fold_left nstep l _) in *. unfold dstate in D. cbn [n_out n_wait] in D.
+  change (dur_rel []) with 0 in D.
+  destruct (0 <? n_wait s) eqn:E; [apply Z.ltb_lt in E|apply Z.ltb_ge in E].
+  - rewrite dur_rel_app, dur_rel_single. cbn. lia.
+  - lia.
+Qed.
+
+Lemma C15_duration_rel (a : list msg) (others : list (list msg)) (m : msg) :
+  last_opt (merge_abs a others) = Some m ->
+  dur_rel (normalise (to_rel (merge_abs a others))) = Z.max 0 (m_time m).
+Proof.
+  intros L. destruct (C15_duration a others m L) as (Hm & Hmax & _).
+  destruct (C15_perm a others) as [P _].
+  rewrite normalise_dur by apply to_rel_aux_waits. unfold to_rel. rewrite dur_to_rel_aux, Z.sub_0_r.
+  apply maxt_spec.
+  - intros x Hx. assert (m_time x <= m_time m); [|lia]. apply Hmax. eapply Permutation_in; eauto.
+  - lia.
+  - destruct (Z_le_gt_dec (m_time m) 0) as [Hle|Hgt]; [left; lia|right].
+    exists m. split; [now apply last_opt_in|lia].
+Qed.
+
+Lemma C15_duration_rel_empty (a : list msg) (others : list (list msg)) :
+  a ++ concat others = [] -> normalise (to_rel (merge_abs a others)) = [].
+Proof. intros H. unfold merge_abs. rewrite H. reflexivity. Qed.
+
+(* ---------------------------------------------------------------- non-vacuity and witnesses *)
+Example C15_ex_rel :
+  key_determines erase (ex_s1 ++ concat [ex_s2; ex_s3]) = true /\
+  normalise (to_rel (merge_abs ex_s1 [ex_s2; ex_s3])) <> normalise (to_rel (merge_abs ex_s3 [ex_s1; ex_s2])).
+Proof. vm_compute. split; [reflexivity|discriminate]. Qed.
+Example C15_ex_plain : forallb plain_note (ex_s2 ++ concat [ex_s3]) = true.
+Proof. vm_compute. reflexivity. Qed.
+Example C15_ex_dur : dur_rel (normalise (to_rel (merge_abs ex_s1 [ex_s2; ex_s3]))) = 48.
+Proof. vm_compute. reflexivity. Qed.
+(* without the hypothesis: two inputs with different time signatures at the same tick and channel -- the signature
+   in force afterwards is the one of the sequence merged last *)
+Definition ex_t34 : list msg := [mk_ts 0 3 4 0 false; mk_on 0 60 90 0 false; mk_off 0 60 24 false].
+Definition ex_t44 : list msg := [mk_ts 0 4 4 0 false].
+Example C15_ex_sig_order :
+  Permutation (ex_t34 ++ concat [ex_t44]) (ex_t44 ++ concat [ex_t34]) /\
+  key_determines erase (ex_t34 ++ concat [ex_t44]) = false /\
+  map erase (normalise (to_rel (merge_abs ex_t34 [ex_t44]))) <> map erase (normalise (to_rel (merge_abs ex_t44 [ex_t34]))).
+Proof.
+  split; [apply (merge_inputs_swap ex_t34 ex_t44 [])|]. vm_compute. split; [reflexivity|discriminate].
 Qed.
